@@ -613,7 +613,7 @@ class IPPO(MultiAgentRLAlgorithm):
             vectorize_experiences_by_agent, (log_probs, rewards, dones, values)
         )
         next_state = vectorize_experiences_by_agent(next_state, dim=0)
-        next_done = vectorize_experiences_by_agent(next_done)
+        next_done = vectorize_experiences_by_agent(next_done, dim=0)
 
         # Bootstrapping returns using GAE advantage estimation
         dones = dones.long()
